@@ -130,19 +130,19 @@ def asgRecv (a b : Ty) : Bool :=
   | .data =>
       asg .scalarData b || asg .undef b ||
       (match b with
-       | .array e' r' => Rng.pos.sub r' && asg .data e'
+       | .array e' r' => Rng.pos.sub r' && (decide (r'.hi ≤ 0) || asg .data e')
        | .tuple ts' g' => Rng.pos.sub (tupleSize ts' g') &&
            (if (tupleSize ts' g').hi ≤ 0 then true else if ts'.isEmpty then asg .data .any else asgAllR .data ts')
-       | .hash k' v' r' => Rng.pos.sub r' && asg .str k' && asg .data v'
+       | .hash k' v' r' => Rng.pos.sub r' && (decide (r'.hi ≤ 0) || (asg .str k' && asg .data v'))
        | .struct ms' => Rng.pos.sub (structSize ms') && asgMembers .str .data ms'
        | _ => false)
   | .richData =>
       asg .scalar b || asg .bin b || asg .dflt b || asg (.object none) b || asg (.typ .any) b || asg .undef b ||
       (match b with
-       | .array e' r' => Rng.pos.sub r' && asg .richData e'
+       | .array e' r' => Rng.pos.sub r' && (decide (r'.hi ≤ 0) || asg .richData e')
        | .tuple ts' g' => Rng.pos.sub (tupleSize ts' g') &&
            (if (tupleSize ts' g').hi ≤ 0 then true else if ts'.isEmpty then asg .richData .any else asgAllR .richData ts')
-       | .hash k' v' r' => Rng.pos.sub r' && asgAnyL [.str, .numeric] k' && asg .richData v'
+       | .hash k' v' r' => Rng.pos.sub r' && (decide (r'.hi ≤ 0) || (asgAnyL [.str, .numeric] k' && asg .richData v'))
        | .struct ms' => Rng.pos.sub (structSize ms') && asgMembersRichKey ms'
        | _ => false)
   | .str => isStringFamily b
@@ -183,14 +183,14 @@ def asgRecv (a b : Ty) : Bool :=
        | _ => false)
   | .array e r =>
       (match b with
-       | .array e' r' => r.sub r' && asg e e'
+       | .array e' r' => r.sub r' && (decide (r'.hi ≤ 0) || asg e e')
        | .tuple ts' g' => r.sub (tupleSize ts' g') &&
            -- tupleAssignableTo
            (if (tupleSize ts' g').hi ≤ 0 then true else if ts'.isEmpty then asg e .any else asgAllR e ts')
        | _ => false)
   | .hash k v r =>
       (match b with
-       | .hash k' v' r' => r.sub r' && asg k k' && asg v v'
+       | .hash k' v' r' => r.sub r' && (decide (r'.hi ≤ 0) || (asg k k' && asg v v'))
        | .struct ms' => r.sub (structSize ms') && asgMembers k v ms'
        | _ => false)
   | .tuple ts g =>
